@@ -325,6 +325,15 @@ def tasks_for(tier, seed):
         pairs += [('dp', a, b) for a, b in ((0, 1), (1023, 1024), (2046, 2046), (1000, 1060))]
     for fmt, a, b in pairs:
         t.append(('FPNum arithmetic %s exponent fields %d,%d' % (fmt, a, b), arith_task, {'fmt': fmt, 'ea': a, 'eb': b}))
+    for fmt in ('sp', 'dp'):
+        ew, mw, bias = FMT[fmt]
+        emax = (1 << ew) - 1
+        if quick:
+            es = sorted(set([0, 1, 2, bias - 1, bias, bias + 1, emax - 1, emax] + random.Random(seed + 5).sample(range(emax + 1), 10)))
+        else:
+            es = list(range(emax + 1))
+        for e in es:
+            t.append(('FloatingPointHelper %s exponent field %d' % (fmt, e), float_task, {'fmt': fmt, 'e': e}))
     return t
 
 
@@ -334,11 +343,112 @@ def main(argv=None):
         PROP, 'model_checking', tasks_for(args.tier, args.seed), args, design_ref='DESIGN.md section 3 (C12)',
         technique='path-complete symbolic execution of the real helper functions on z3 bit-vector integers (mantissas, values and widths symbolic; exponent fields enumerated); per path a QF_BV query under the path condition',
         assumptions=['NaN payloads excepted (exponent all ones is checked for infinities only)', 'FPNum arithmetic on finite operands',
-                     'FloatingPointHelper float<->pattern conversions and FPNum.to_float/div/sqrt/reducePrecision* are not covered by this check (floats / Decimal are outside the integer engine)'],
+                     'FloatingPointHelper conversions run on an exact dyadic float model (sign, integer mantissa, concrete exponent; only operations that are exact in double arithmetic); values not representable in the target format (rounding), FPNum.to_float/div/sqrt/reducePrecision* are outside'],
         bounds={'two\'s complement': 'all widths 1..16 (32 thorough), value and width symbolic', 'FixedPoint': 'all formats (1,i,f), i >= 1, up to total width 8 (12)',
                 'FPNum round trip': 'hp: all 32 exponent fields; sp: 21 fields quick / all 256 thorough; dp: 17 quick / all 2048 thorough; both signs, all mantissas',
                 'FPNum arithmetic': 'hp: exponent pairs (band + boundaries quick, all 31x31 thorough); sp/dp: boundary pairs + seeded windows; all mantissa pairs, all four sign combinations'},
         trusted_base=['z3', 'symx operator semantics', 'rational cross-multiplication oracle in checks/c12.py (replay uses fractions.Fraction)'], task_limit=1800)
+
+
+
+# ---------------------------------------------------------------------------------------------------
+# FloatingPointHelper: bit pattern <-> Python float, on the exact dyadic float model (symx.symfloat)
+
+FFMT = {'sp': (8, 23, 127, 'ieee754_to_sp', 'sp_to_ieee754', '>f', '>I'), 'dp': (11, 52, 1023, 'ieee754_to_dp', 'dp_to_ieee754', '>d', '>Q')}
+
+
+def float_task(p, cfg, rec):
+    """pattern -> ieee754_to_xx -> value (== IEEE definition) -> xx_to_ieee754 -> pattern, one exponent field, both signs"""
+    import struct
+    from symx.symfloat import SymFloat
+    fmt, e = cfg['fmt'], cfg['e']
+    ew, mw, bias, to_f, to_p, sf, si = FFMT[fmt]
+    rec.update(['py4hw.helper.FloatingPointHelper.' + n for n in (to_f, to_p, 'fp_to_parts', 'ieee754_parts_to_' + fmt, fmt + '_to_ieee754_parts', 'parts_to_fp')])
+    shims.install(H, ('isinstance', 'int', 'round', 'math'))
+    FH = H.FloatingPointHelper
+    emax = (1 << ew) - 1
+    try:
+        for s in (0, 1):
+            m, mv = core.fresh('m', mw)
+            ctx.set_assumptions([mv == 0] if e == emax else [])
+            p.assumptions = list(ctx.assumptions)
+            pat = (s << (ew + mw)) | (e << mw) | m
+
+            def run():
+                v = getattr(FH, to_f)(pat)
+                if isinstance(v, SymFloat):
+                    back = getattr(FH, to_p)(v)
+                    return ('sym', v.s, v.M, v.E, back)
+                # concrete float (zeros, infinities): go through the real math for the way back
+                return ('conc', v, None, None, getattr(FH, to_p)(v))
+            with quiet():
+                res = run_paths(run)
+            p.res['transitions'] += len(res)
+            viol_def, viol_back = [], []
+            for k, r in enumerate(res):
+                if r.exc is not None:
+                    if isinstance(r.exc, Unsupported):
+                        p.inconclusive('%s s=%d e=%d path %d' % (fmt, s, e, k), 'float model: %s' % r.exc)
+                        continue
+                    rr, mm = p.satisfiable(r.pc)
+                    ex = {'m': common.model_value(mm, mv)} if mm is not None else {}
+                    p.structural('%s s=%d e=%d path %d completes' % (fmt, s, e, k), False, detail={'exception': repr(r.exc), 'example': ex})
+                    continue
+                kind, vs, vM, vE, back = r.ret
+                if kind == 'sym':
+                    # IEEE definition of the encoding: subnormal m * 2**(1-bias-mw), normal (2**mw + m) * 2**(e-bias-mw)
+                    dM, dE = (m, 1 - bias - mw) if e == 0 else ((1 << mw) + m, e - bias - mw)
+                    E0 = min(vE, dE)
+                    c = z3.Or(z3.BoolVal(vs != (1 if s == 0 else -1)), ne(vM << (vE - E0), dM << (dE - E0)))
+                    viol_def.append(z3.And(pc_cond(r.pc), c))
+                else:
+                    # concrete value: compare with the platform encoding directly under the path condition
+                    rr, mm = p.satisfiable(r.pc)
+                    if mm is not None:
+                        mval = common.model_value(mm, mv)
+                        pt = (s << (ew + mw)) | (e << mw) | mval
+                        want = struct.unpack(sf, struct.pack(si, pt))[0]
+                        same = (vs == want or (vs != vs and want != want)) and (_math_copysign(vs) == _math_copysign(want))
+                        p.structural('%s pattern %s decodes like the platform (%r)' % (fmt, hex(pt), want), same, detail={'got': repr(vs), 'expected': repr(want)})
+                viol_back.append(z3.And(pc_cond(r.pc), ne(back, pat)))
+
+            def replay(values, s=s):
+                pt = (s << (ew + mw)) | (e << mw) | values['m']
+                RH = __import__('py4hw.helper', fromlist=['x'])
+                shims.uninstall(H, ('isinstance', 'int', 'round', 'math'))
+                try:
+                    v = getattr(RH.FloatingPointHelper, to_f)(pt)
+                    want = struct.unpack(sf, struct.pack(si, pt))[0]
+                    bk = getattr(RH.FloatingPointHelper, to_p)(v)
+                finally:
+                    shims.install(H, ('isinstance', 'int', 'round', 'math'))
+                if v != want or _math_copysign(v) != _math_copysign(want) or bk != pt:
+                    return {'pattern': hex(pt), 'decoded': repr(v), 'platform': repr(want), 'encoded back': hex(bk)}
+                return None
+            p.prove_many('%s s=%d e=%d: decoded value equals the IEEE-754 definition' % (fmt, s, e), viol_def, inputs={'m': mv}, replay=replay)
+            p.prove_many('%s s=%d e=%d: pattern -> float -> pattern is the identity' % (fmt, s, e), viol_back, inputs={'m': mv}, replay=replay)
+            # tie the definition to the platform on boundary mantissas (concrete, real math module)
+            shims.uninstall(H, ('isinstance', 'int', 'round', 'math'))
+            try:
+                for mval in ([0] if e == emax else [0, 1, (1 << mw) - 1, 1 << (mw - 1), (1 << (mw - 1)) + 1]):
+                    pt = (s << (ew + mw)) | (e << mw) | mval
+                    want = struct.unpack(sf, struct.pack(si, pt))[0]
+                    got = getattr(H.FloatingPointHelper, to_f)(pt)
+                    okv = (got == want and _math_copysign(got) == _math_copysign(want))
+                    bk = getattr(H.FloatingPointHelper, to_p)(want)
+                    p.structural('%s %s: helper agrees with struct in both directions' % (fmt, hex(pt)), okv and bk == pt,
+                                 detail={'decoded': repr(got), 'platform': repr(want), 'encoded': hex(bk)})
+                    p.res['traces_validated'] += 1
+            finally:
+                shims.install(H, ('isinstance', 'int', 'round', 'math'))
+    finally:
+        shims.uninstall(H, ('int', 'round', 'math'))
+    p.res['states'] += 1
+
+
+def _math_copysign(x):
+    import math
+    return math.copysign(1, x)
 
 
 if __name__ == '__main__':
